@@ -62,6 +62,11 @@ def discharge(ex, o, timeout_ms=10000, seed=0, want_model=True, ground=True):
         if not ground:
             o.time = time.time() - t0
             return
+        if not has_quant(o.goal) and case_split(ex, o, axioms, [], timeout_ms, seed, 3, time.time() + max(20.0, 3 * timeout_ms / 1000.0)):
+            o.status = 'proved'
+            o.solver = 'z3-5.1(api,case-split)'
+            o.time = time.time() - t0
+            return
         s2 = make_solver(min(timeout_ms, 3000), seed)
         for a in axioms:
             s2.add(a)
@@ -80,6 +85,60 @@ def discharge(ex, o, timeout_ms=10000, seed=0, want_model=True, ground=True):
                 o.status = 'proved'
                 o.solver = 'z3-5.1(api,ground)'
     o.time = time.time() - t0
+
+
+def _testers(goal):
+    """ground datatype tester applications is_C(t) of the goal, grouped by t"""
+    groups = {}
+    seen = set()
+    stack = [goal]
+    while stack:
+        x = stack.pop()
+        i = x.get_id()
+        if i in seen:
+            continue
+        seen.add(i)
+        if z3.is_quantifier(x):
+            continue   # terms under a binder may mention bound variables
+        if z3.is_app(x):
+            if x.decl().kind() == z3.Z3_OP_DT_IS and x.num_args() == 1:
+                g = groups.setdefault(x.arg(0).get_id(), (x.arg(0), {}))
+                g[1][x.decl().name() + str(x.decl().params())] = x
+            stack.extend(x.children())
+    return groups
+
+
+def case_split(ex, o, axioms, extra, timeout_ms, seed, depth, deadline, used=()):
+    """prove the goal by cases on the constructor of an interface value the goal inspects (sound: the cases
+    is_C1(t), ..., is_Cn(t), none-of-them are exhaustive); returns True when every case is unsat"""
+    groups = {k: v for k, v in _testers(o.goal).items() if k not in used}
+    if not groups:
+        return False
+    key = max(groups, key=lambda k: (len(groups[k][1]), -k))
+    t, tests = groups[key]
+    if len(tests) < 2:
+        return False
+    cases = list(tests.values()) + [z3.And(*[z3.Not(c) for c in tests.values()])]
+    for c in cases:
+        if time.time() > deadline:
+            return False
+        s = make_solver(min(timeout_ms, 6000), seed)
+        for a in axioms:
+            s.add(a)
+        for p in o.pc:
+            s.add(p)
+        for e in extra:
+            s.add(e)
+        s.add(c)
+        s.add(z3.Not(o.goal))
+        r = s.check()
+        if r == z3.unsat:
+            continue
+        if r == z3.sat or depth <= 1:
+            return False
+        if not case_split(ex, o, axioms, list(extra) + [c], timeout_ms, seed, depth - 1, deadline, tuple(used) + (key,)):
+            return False
+    return True
 
 
 def extract_model(ex, model):
